@@ -365,25 +365,6 @@ def lexOk : LexMode → List XTok → Bool
   | .pi, .startTagClosePI :: r => lexOk .content r
   | _, _ :: _ => false
 
-/-! ## trigger of the known finding K-C09-Xml-1 -/
-
-/-- a decoded value contains `?` directly followed by `>` (`p` = the previous character was `?`) -/
-def d2 : Bool → List DCh → Bool
-  | _, [] => false
-  | p, x :: r => (p && x == .c 62) || d2 (x == .c 63) r
-
-/-- a double-quoted pseudo-attribute value whose normalised value contains `?>` -/
-def piValHazard (v : List Char) : Bool := v.head? == some '"' && d2 false (attrValue v)
-
-/-- **trigger of K-C09-Xml-1**: some double-quoted pseudo-attribute of a processing instruction has a value that,
-references decoded, contains `?>` (first argument: inside a PI) -/
-def piEndHazard : Bool → List XTok → Bool
-  | _, [] => false
-  | _, .startTagPI _ :: r => piEndHazard true r
-  | _, .startTagClosePI :: r => piEndHazard false r
-  | true, .attr _ v :: r => piValHazard v || piEndHazard true r
-  | pi, _ :: r => piEndHazard pi r
-
 /-! ## comparison of two documents on the token level (harness oracle) -/
 
 /-- the tokens without the data items of processing instructions (`<?target` and `?>` stay) -/
